@@ -53,4 +53,7 @@ def alpha_bits(rng):
         return f32bits(0.0)
     if c < 0.30:
         return f32bits(rng.choice([0.5, 0.25, 1.0 / 255, 254.5 / 255, 0.998]))
+    if c < 0.36:
+        # alphas at the ends of the 8-bit scale: bytes 254, 253, 1, 2 exactly, and values below one step that still round to 1
+        return f32bits(rng.choice([254.0 / 255, 254.0 / 255, 253.0 / 255, 1.0 / 255, 2.0 / 255, 0.75 / 255, 0.6 / 255, 0.0035, 0.4 / 255]))
     return f32bits(rng.random())
